@@ -335,3 +335,10 @@ pub fn verif_lock(context: &GlobalDataLock, v: &DataArc) -> (r: Result<VerifGuar
 pub fn verif_to_string(s: &str) -> (r: String) {
     s.to_string()
 }
+
+/// the first vs.len() elements of es were evaluated in order, each starting where the previous one ended, and all succeeded
+pub open spec fn arr_chain(es: Seq<Box<dyn Expression>>, ctxs: Seq<GlobalDataLock>, vs: Seq<DataArc>, allow_undefined: bool) -> bool {
+    &&& ctxs.len() == vs.len() + 1
+    &&& vs.len() <= es.len()
+    &&& forall|j: int| 0 <= j < vs.len() ==> (#[trigger] es[j]).sem(ctxs[j], ctxs[j + 1], allow_undefined, Ok::<DataArc, String>(vs[j]))
+}
